@@ -40,12 +40,12 @@ def build_db(m, sc, out, path):
     return db
 
 
-def check(chk, sc, out, path, block=False):
+def check(chk, sc, out, path, block=False, deterministic=False):
     payload = {"kind": "lre", "sc": _plain(sc), "src": list(out["src"])}
-    tag = "lre:%s:%s%s" % (sc["id"], "dev" if sc["dev"] else "lev", ":measurement-block" if block else "")
-    desc = ("(measurement equations written as a simultaneous block) " if block else "") + "model %s deviation=%s init=%s unanticipated=%s anticipated=%s" % (sc["id"], sc["dev"], _plain(sc["init"]), sorted(sc["u"]), sorted(sc["a"]))
+    tag = "lre:%s:%s%s" % (sc["id"], "dev" if sc["dev"] else "lev", (":measurement-block" if block else "") + (":deterministic" if deterministic else ""))
+    desc = ("(measurement equations written as a simultaneous block) " if block else "") + ("(model created with deterministic=True) " if deterministic else "") + "model %s deviation=%s init=%s unanticipated=%s anticipated=%s" % (sc["id"], sc["dev"], _plain(sc["init"]), sorted(sc["u"]), sorted(sc["a"]))
     try:
-        m = model(out["src"], out["linear"])
+        m = model(out["src"], out["linear"], deterministic=deterministic)
         db = build_db(m, sc, out, path)
         sim = quiet(m.simulate, db, ir.Span(per(1), per(TN)), method="first_order", deviation=bool(sc["dev"]))
         # the same simulation split into frames at the unanticipated shocks must give the same path
@@ -170,12 +170,16 @@ def run(chk):
     dump = chk.scratch.file("lre.dump")
     r = tlc.must_pass(tlc.run("LinearREMC", "LinearREMC.thorough.cfg" if chk.tier == "thorough" else "LinearREMC.cfg", chk.scratch, dump=dump, timeout=3600), "LinearREMC")
     chk.add_tlc(r, "LinearREMC")
-    n = nblock = 0
+    n = nblock = ndet = 0
     seen_models = {}
     groups = {}
     for st in tlaval.parse_dump(dump, want=lambda b: "fin = TRUE" in b):
         sc, out, path = st["sc"], st["out"], dict(st["path"])
         check(chk, sc, out, path)
+        if chk.tier == "thorough" or n % 5 == 0:
+            # the same model declared deterministic (no std parameters): simulations are unchanged
+            check(chk, sc, out, path, deterministic=True)
+            ndet += 1
         if len(out["mvars"]) >= 2 and (chk.tier == "thorough" or n % 3 == 0):
             check(chk, sc, dict(out, src=out["srcb"]), path, block=True)
             nblock += 1
@@ -196,7 +200,8 @@ def run(chk):
         raise MachineryError("LinearREMC: no pair of scenarios for the multi-variant model")
     if not nblock:
         raise MachineryError("LinearREMC: no scenario with a measurement block")
-    chk.replayed += nv + nblock
+    chk.replayed += nv + nblock + ndet
+    chk.notes["simulations_on_deterministic_models"] = ndet
     chk.notes["two_variant_parametric_simulations"] = nv
     chk.notes["simulations_with_measurement_equations_as_block"] = nblock
     if n * (TN + 1) != r.distinct:
